@@ -44,6 +44,9 @@ def build_job(model: Model, pkg: Path, jobdir: Path, extra_flags: List[str] = ()
         unity = f'#include "{pkg}/Analyzer.cc"\n#include "cms_driver.cxx"\n'
         libs = []
     (jobdir / "unity.cxx").write_text(unity)
+    miss = missing_std_includes(pkg, model.backend)
+    if miss:
+        return {"ok": False, "stage": "includes", "errors": [miss]}
     flags = [*BASE_FLAGS, *(SAN_FLAGS if sanitize else []), *(WERR if werror else [])]
     cmd = [CXX, *flags, *extra_flags, "-I", str(model.inc), "-I", str(jobdir / "inc")]
     if model.pch is not None and sanitize == model.sanitize:
@@ -56,6 +59,23 @@ def build_job(model: Model, pkg: Path, jobdir: Path, extra_flags: List[str] = ()
         stage = "link" if any("undefined" in l or "ld:" in l or "linker" in l for l in errs) and not any(": error:" in l for l in errs) else "compile"
         return {"ok": False, "stage": stage, "errors": [e[-300:] for e in errs[:6]] or [r.stderr[-400:]]}
     return {"ok": True, "exe": str(exe)}
+
+
+_CMATH = ("sin|cos|tan|asin|acos|atan|atan2|sinh|cosh|tanh|asinh|acosh|atanh|sqrt|cbrt|exp|exp2|expm1|log|log10|log2|log1p|pow|hypot|fmod|remainder|floor|ceil|trunc|round|rint|nearbyint|"
+          "fabs|fmax|fmin|fdim|fma|erf|erfc|tgamma|lgamma|copysign|nextafter|nexttoward|ldexp|scalbn|scalbln|ilogb|logb|nan")
+_CMATH_USE = re.compile(r"\bstd\s*::\s*(" + _CMATH + r")\s*\(")
+
+
+def missing_std_includes(pkg: Path, backend: str) -> Optional[str]:
+    """Include-what-you-use monitor for the one standard header the translator's function table relies on: the model
+    framework headers pull <cmath> in on their own, the real frameworks need not.  The emitted source (or the package
+    header it includes) must name <cmath> when it calls a std:: math function."""
+    files = [pkg / "query.cxx", pkg / "query.h"] if backend == "atlas" else [pkg / "Analyzer.cc"]
+    text = "\n".join(f.read_text(errors="replace") for f in files if f.exists())
+    m = _CMATH_USE.search(text)
+    if m and not re.search(r"#\s*include\s*[<\"]cmath[>\"]", text):
+        return f"std::{m.group(1)} is called but the package never includes <cmath>"
+    return None
 
 
 _SAN_RE = re.compile(r"(SUMMARY: \w*Sanitizer: [^\n]*|runtime error: [^\n]*|ERROR: AddressSanitizer: [^\n]*)")
